@@ -254,6 +254,35 @@ pub fn templates() -> Gen<Vec<S>> {
         S::Block(vec![make("a", st("inner")), shout(call("see", vec![])), shout(var("a"))]),
         shout(var("a")),
     ]);
+    // indexed writes and indexed-receiver mutations bind lexically too: the callee's `a` is the
+    // global, whatever same-named local or parameter the caller / a recursive activation holds
+    for form in 0..5u8 {
+        let write: Vec<S> = match form {
+            0 => vec![S::SetIdx(idx(var("a"), num("0")), st("W"))],
+            1 => vec![S::SetIdx(idx(idx(var("a"), num("1")), num("0")), st("W"))],
+            2 => vec![S::Expr(meth(idx(var("a"), num("1")), "push", vec![st("W")]))],
+            3 => vec![S::Expr(meth(idx(var("a"), num("1")), "reverse", vec![]))],
+            _ => vec![shout(meth(idx(var("a"), num("1")), "pop", vec![]))],
+        };
+        v.push(vec![
+            make("a", E::Arr(vec![st("g0"), E::Arr(vec![st("g1"), st("g2")])])),
+            func("callee", &[], write.clone()),
+            func("caller", &[], vec![make("a", E::Arr(vec![st("c0"), E::Arr(vec![st("c1"), st("c2")])])), S::Expr(call("callee", vec![])), shout(var("a"))]),
+            S::Expr(call("caller", vec![])),
+            shout(var("a")),
+        ]);
+        // the same through a parameter named like the global, and through recursion
+        v.push(vec![
+            make("a", E::Arr(vec![st("g0"), E::Arr(vec![st("g1"), st("g2")])])),
+            func("callee", &[], write.clone()),
+            func("viaparam", &["a", "n"], vec![
+                S::If(bin(Op::Gt, var("n"), num("0")), vec![S::Expr(call("viaparam", vec![E::Arr(vec![st("p0"), E::Arr(vec![var("n"), st("p2")])]), bin(Op::Sub, var("n"), num("1"))]))], Some(vec![S::Expr(call("callee", vec![]))])),
+                shout(var("a")),
+            ]),
+            S::Expr(call("viaparam", vec![E::Arr(vec![st("q0"), E::Arr(vec![st("q1"), st("q2")])]), num("2")])),
+            shout(var("a")),
+        ]);
+    }
     Gen::of(v)
 }
 
